@@ -1,3 +1,4 @@
+import DSV.FactsOK.SrcC02
 import DSV.Generated.Facts
 /-! C02 — extracted comparison operators / median indexes of the aggregators match the model. -/
 namespace DSV.Props.C02.Facts
